@@ -481,8 +481,16 @@ class Sim:
         self.cur = o
         o.sem.release()
 
+    MAX_SWITCHES = 30_000
+
     def _switch(self, t, o, name, line, offset=None):
         if o is t or o.done:
+            return
+        if len(self.switches) >= self.MAX_SWITCHES and name != '<blocked>':
+            # a run with millions of steps under a dense schedule (long inputs x Bernoulli 0.1 x six clients) would spend
+            # minutes handing the baton to and fro: after 30 000 switches the rest of the run is only pre-empted between
+            # operations (deterministic: a count, not a clock)
+            self.next_check = INF
             return
         if offset is None:
             self.switches.append([t.i, t.local, o.i])
